@@ -37,7 +37,7 @@ let register () =
   Drv.register "c16.verify" (fun args -> match args with
     | mode :: unc :: repair :: bstr :: tree :: zt :: rest ->
         let zd = parse_table zt no_codec in
-        let f = if mode = "eager" then Prune.verify_eager else Prune.verify in
+        let f = if mode = "eager" then Prune.verify_eager else Prune.verify in   (* both read with verification on *)
         let st = { (store unc "s") with LocalStore.st_skip = (match rest with [sk] -> bool_arg sk | _ -> false) } in
         let ((s', msgs), e) = f Sha256.h_model zd fuel st (bytes_of_hex bstr) (bool_arg repair) (parse_fs tree) in
         let ms = Stdlib.List.map (function
